@@ -1,7 +1,7 @@
 (** Extraction of the C04 models (ExtrOcamlBasic only). *)
 From Coq Require Import ZArith List.
 From Coq Require Import ExtrOcamlBasic.
-From Webp Require Vp8.Vp8Bool Vp8.Vp8Tables Vp8.Vp8Syntax Vp8.Vp8Kernels Vp8.Vp8Recon Vp8.Vp8Filter Vp8.Vp8Spec Vp8.Vp8Upsample Vp8.Vp8BoolEnc Vp8.Vp8Rgb.
+From Webp Require Vp8.Vp8Bool Vp8.Vp8Tables Vp8.Vp8Syntax Vp8.Vp8Kernels Vp8.Vp8Recon Vp8.Vp8Filter Vp8.Vp8Spec Vp8.Vp8Upsample Vp8.Vp8BoolEnc Vp8.Vp8Rgb Vp8.Vp8GoReader Vp8.Vp8InlineCoeffs.
 From Webp Require Conform.ConformFile.
 
 Separate Extraction
@@ -15,5 +15,7 @@ Separate Extraction
   Vp8.Vp8Kernels.add_residual Vp8.Vp8Upsample.upsample_pair
   Vp8.Vp8Kernels.go_fstrength Vp8.Vp8Kernels.lf_mb_params Vp8.Vp8Kernels.subedge_limit
   Vp8.Vp8Rgb.decode_rgb Conform.ConformFile.alpha_decode
+  Vp8.Vp8GoReader.gr_load Vp8.Vp8GoReader.gr_bit Vp8.Vp8InlineCoeffs.go_get_coeffs Vp8.Vp8Syntax.decode_block
+  Vp8.Vp8Bool.read_bool
   Vp8.Vp8BoolEnc.bw_init Vp8.Vp8BoolEnc.bw_put Vp8.Vp8BoolEnc.bw_put_uniform Vp8.Vp8BoolEnc.bw_put_bits
   Vp8.Vp8BoolEnc.bw_put_signed Vp8.Vp8BoolEnc.bw_finish Vp8.Vp8BoolAbs.rfc_bits Vp8.Vp8Bool.bd_init.
